@@ -544,9 +544,9 @@ impl<'a> Lexer<'a> {
                     false
                 };
 
-                // so far the only token type that can have a null character reach push
-                // because it adds all chars, mostly indiscriminately
-                if !end && c != '\0' {
+                // the null character pushed through at the end of the input is not content,
+                // one written in the literal is
+                if !end && !(c == '\0' && self.at_end) {
                     self.current_characters.push(c);
                 }
 
@@ -588,9 +588,9 @@ impl<'a> Lexer<'a> {
                     false
                 };
 
-                // so far the only token type that can have a null character reach push
-                // because it adds all chars, mostly indiscriminately
-                if !end && c != '\0' {
+                // the null character pushed through at the end of the input is not content,
+                // one written in the literal is
+                if !end && !(c == '\0' && self.at_end) {
                     self.current_characters.push(c);
                 }
 
